@@ -121,6 +121,49 @@ def connect_worker(analysis: Analysis, spec) -> dict:
     return {"qual": qual, "async": info.is_async, "rows": rows}
 
 
+def watchdog_worker(analysis: Analysis, ctxspec) -> list:
+    """Paths of the TCP connection check with the deadline comparisons they were taken under."""
+    ctx = analysis.context(*ctxspec)
+    it = analysis.new_interp(ctx)
+    st, gw = analysis.gateway_state(it)
+    it.inline_skip = {"__init__:Gateway.alert"}
+    outs = analysis.run_root(it, "gateway_tcp:BaseTCPGateway.check_connection", [], gw, st)
+    rows = []
+    for out in outs:
+        kind, s, v = out
+        atoms = set()
+        for f in s.facts:
+            if f[0] != "atom" or f[1][0] != "cmp":
+                continue
+            _c, op, lk, rk = f[1]
+            truth = f[2]
+            ls, rs = repr(lk), repr(rk)
+            if "time.time" in rs and "time.time" not in ls:
+                dl = ls
+            elif "time.time" in ls and "time.time" not in rs:
+                dl = rs
+                op = {"Lt": "Gt", "Gt": "Lt", "LtE": "GtE", "GtE": "LtE"}.get(op, op)
+            else:
+                continue
+            # deadline <op> now
+            expired = (op in ("Lt", "LtE") and truth) or (op in ("Gt", "GtE") and not truth)
+            dl = dl.replace("\\", "").replace("'", "").replace('"', "")
+            which = "disconnect" if "tcp_disconnect_timer" in dl else ("check" if "tcp_check_timer" in dl else "?")
+            uses_rt = "transport), reconnect_timeout)" in dl
+            factor = 2 if "binop:Mult" in dl and "(c, int, 2)" in dl else 1
+            if uses_rt and "binop:Add" in dl:
+                atoms.add((which, factor, "expired" if expired else "pending"))
+        probe = any(e.kind == "append" and e.args and "message:Message.encode" in repr(e.args[0].key()) for e in s.events) or any(e.kind == "opaque" and "add_job" in e.name for e in s.events)
+        restarts = any(e.kind == "store" and e.name == "tcp_check_timer" and e.args and "time.time" in repr(e.args[0].key()) for e in s.events)
+        subs = [e.args[0] for e in s.events if e.kind == "store" and e.name == "sub_type" and e.args]
+        is_version = bool(subs) and "I_VERSION" in repr(subs[-1].key())
+        to_gw = any(e.kind == "store" and e.name == "child_id" and e.args and isinstance(e.args[0], Const) and e.args[0].value == 255 for e in s.events) and not any(e.kind == "store" and e.name == "node_id" and e.args and not (isinstance(e.args[0], Const) and e.args[0].value == 0) for e in s.events)
+        rows.append({"kind": kind, "exc": v.cls.__name__ if kind == "raise" else None, "atoms": sorted(atoms), "probe": probe, "restarts_check": restarts, "is_version": is_version, "to_gw": to_gw, "witness": describe_path(out, 14)})
+    for r in rows:
+        r["atoms"] = [tuple(a) for a in r["atoms"]]
+    return rows
+
+
 def watchdog_structure(analysis: Analysis, res: RuleResult) -> None:
     """R5: structure of the TCP watchdog (which timer, which factor, which side of the comparison).
 
@@ -130,37 +173,15 @@ def watchdog_structure(analysis: Analysis, res: RuleResult) -> None:
     info = analysis.p.func("gateway_tcp:BaseTCPGateway.check_connection")
     w = common.where(analysis, info, info.node)
 
-    def sides(test):
-        if not (isinstance(test, ast.Compare) and len(test.ops) == 1):
-            return None
-        l, r = unparse(test.left).replace(" ", ""), unparse(test.comparators[0]).replace(" ", "")
-        op = type(test.ops[0]).__name__
-        if "time.time()" in r and "time.time()" not in l:
-            return l, op
-        if "time.time()" in l and "time.time()" not in r:
-            flip = {"Lt": "Gt", "Gt": "Lt", "LtE": "GtE", "GtE": "LtE"}
-            return r, flip.get(op, op)
-        return None
-
-    drop = probe_skip = None
-    for n in info.node.body:
-        if isinstance(n, ast.If):
-            sd = sides(n.test)
-            if sd is None:
-                continue
-            if any(isinstance(x, ast.Raise) for x in ast.walk(n)):
-                drop = (sd, n)
-            elif any(isinstance(x, ast.Return) for x in n.body):
-                probe_skip = (sd, n)
-    ok = drop is not None and "tcp_disconnect_timer" in drop[0][0] and "2*" in drop[0][0] and "reconnect_timeout" in drop[0][0] and drop[0][1] in ("Lt", "LtE")
-    res.add("C20-R5", "gateway_tcp:BaseTCPGateway.check_connection / the link is dropped when the last answer is older than 2 x reconnect_timeout", ok, w, f"condition {drop[0] if drop else None}")
-    if drop is not None:
-        exc = [x for x in ast.walk(drop[1]) if isinstance(x, ast.Raise)]
-        res.add("C20-R5", "gateway_tcp:BaseTCPGateway.check_connection / a silent link raises OSError into the reader loop", any("OSError" in unparse(x) for x in exc), w, "")
-    ok = probe_skip is not None and "tcp_check_timer" in probe_skip[0][0] and "reconnect_timeout" in probe_skip[0][0] and "2*" not in probe_skip[0][0] and probe_skip[0][1] in ("GtE", "Gt")
-    res.add("C20-R5", "gateway_tcp:BaseTCPGateway.check_connection / a version probe is sent every reconnect_timeout", ok, w, f"probe skipped while {probe_skip[0] if probe_skip else None}")
-    txt = unparse(info.node)
-    res.add("C20-R5", "gateway_tcp:BaseTCPGateway.check_connection / the probe is I_VERSION to the gateway and restarts the probe timer", "I_VERSION" in txt and "add_job" in txt and "self.tcp_check_timer = time.time()" in txt, w, "")
+    rows = common.pmap(analysis, watchdog_worker, [(analysis.versions[-1], "tcp", "sync")])[0]
+    drops = [r for r in rows if r["kind"] == "raise"]
+    probes = [r for r in rows if r["kind"] == "val" and r["probe"]]
+    skips = [r for r in rows if r["kind"] == "val" and not r["probe"]]
+    res.add("C20-R5", "gateway_tcp:BaseTCPGateway.check_connection / the link is dropped when the last answer is older than 2 x reconnect_timeout", bool(drops) and all(r["exc"] == "OSError" and ("disconnect", 2, "expired") in r["atoms"] for r in drops), w, (f"{len(drops)} raising path(s), each under `tcp_disconnect_timer + 2 * transport.reconnect_timeout < now`" if all(("disconnect", 2, "expired") in r["atoms"] for r in drops) else "a raising path is not taken under `tcp_disconnect_timer + 2 * transport.reconnect_timeout < now` (other timer, factor, interval source or direction)") if drops else "no path raises", next((r["witness"] for r in drops if ("disconnect", 2, "expired") not in r["atoms"]), None))
+    res.add("C20-R5", "gateway_tcp:BaseTCPGateway.check_connection / a silent link raises OSError into the reader loop", bool(drops) and all(r["exc"] == "OSError" for r in drops), w, "")
+    okp = bool(probes) and all(("check", 1, "expired") in r["atoms"] and r["restarts_check"] for r in probes)
+    res.add("C20-R5", "gateway_tcp:BaseTCPGateway.check_connection / a version probe is sent every reconnect_timeout", okp and all(("check", 1, "pending") in r["atoms"] or ("disconnect", 2, "expired") in r["atoms"] for r in skips), w, (f"{len(probes)} probing path(s) under `tcp_check_timer + transport.reconnect_timeout < now`, {len(skips)} skipping path(s) under its negation" if okp else "a probing path is not taken under `tcp_check_timer + transport.reconnect_timeout < now` or does not restart the probe timer") if probes else "no path sends the probe", next((r["witness"] for r in probes + skips if not (("check", 1, "expired") in r["atoms"] or ("check", 1, "pending") in r["atoms"])), None))
+    res.add("C20-R5", "gateway_tcp:BaseTCPGateway.check_connection / the probe is I_VERSION to the gateway and restarts the probe timer", bool(probes) and all(r["is_version"] and r["to_gw"] and r["restarts_check"] for r in probes), w, "internal / I_VERSION to node 0 child 255, enqueued as a job; tcp_check_timer = now")
     h = analysis.p.func("gateway_tcp:BaseTCPGateway._handle_i_version")
     res.add("C20-R5", "gateway_tcp:BaseTCPGateway._handle_i_version / an answer restarts the disconnect timer", "self.tcp_disconnect_timer = time.time()" in unparse(h.node), common.where(analysis, h, h.node), "")
     init = analysis.p.func("gateway_tcp:BaseTCPGateway.__init__")
@@ -183,6 +204,40 @@ def watchdog_structure(analysis: Analysis, res: RuleResult) -> None:
                         if uses and ends:
                             ok = True
     res.add("C20-R5", "gateway_tcp:TCPTransport.run / the watchdog runs every loop iteration and its OSError ends the connection", ok, common.where(analysis, run, run.node), "try: self._check_connection() except OSError: break -> connection_lost(error)")
+    # the reader loop reaches the watchdog without waiting for inbound data: every select() in the transport
+    # returns at once (socket in the write set) or after a bounded time (numeric timeout at every call site)
+    n_sel = 0
+    for m in cls.methods.values():
+        params = [p.arg for p in m.node.args.args]
+        pdefaults = dict(zip(params[len(params) - len(m.node.args.defaults):], m.node.args.defaults))
+        for n in ast.walk(m.node):
+            if not (isinstance(n, ast.Call) and unparse(n.func) in ("select.select", "select")):
+                continue
+            n_sel += 1
+            wl = n.args[1] if len(n.args) > 1 else None
+            nonempty_w = isinstance(wl, (ast.List, ast.Tuple)) and len(wl.elts) > 0
+            tm = n.args[3] if len(n.args) > 3 else next((k.value for k in n.keywords if k.arg == "timeout"), None)
+
+            def bounded(expr) -> bool:
+                if expr is None:
+                    return False
+                if isinstance(expr, ast.Constant):
+                    return isinstance(expr.value, (int, float)) and not isinstance(expr.value, bool)
+                if isinstance(expr, ast.Name) and expr.id in params:
+                    # every call site of this method in the class must pass a numeric constant
+                    sites = [c for mm in cls.methods.values() for c in ast.walk(mm.node) if isinstance(c, ast.Call) and isinstance(c.func, ast.Attribute) and c.func.attr == m.name]
+                    idx = params.index(expr.id) - 1
+                    vals = []
+                    for c in sites:
+                        v = c.args[idx] if idx < len(c.args) else next((k.value for k in c.keywords if k.arg == expr.id), pdefaults.get(expr.id))
+                        vals.append(v)
+                    return bool(sites) and all(isinstance(v, ast.Constant) and isinstance(v.value, (int, float)) and not isinstance(v.value, bool) for v in vals)
+                return False
+
+            okb = nonempty_w or bounded(tm)
+            res.add("C20-R5", f"{m.qual} / select() does not wait for inbound data before the watchdog can run", okb, common.where(analysis, m, n), "the socket is in the write set (a connected socket is writable at once)" if nonempty_w else ("bounded timeout" if okb else "select() waits for readability only, with no timeout: on a silent link the loop never reaches the watchdog - no probe, no drop, no reconnect"))
+    if n_sel < 1:
+        raise AnalysisError("C20-R5: no select() call found in TCPTransport")
     a = analysis.p.func("gateway_tcp:AsyncTCPGateway.check_connection")
     t = unparse(a.node)
     res.add("C20-R5", "gateway_tcp:AsyncTCPGateway.check_connection / re-arms itself and, when silent, closes and reconnects", "call_later" in t and "self.check_connection" in t and "conn_lost_callback()" in t and ".close()" in t and "except OSError" in t, common.where(analysis, a, a.node), "")
